@@ -178,7 +178,7 @@ func await(a *actor, mayBlock, fresh bool, condFalse func(wait string) bool) (ki
 	if !mayBlock {
 		delay = 3 * time.Second // safety net only
 	}
-	deadline := time.Now().Add(180 * time.Second)
+	deadline := time.Now().Add(420 * time.Second)
 	for {
 		t := time.NewTimer(delay)
 		select {
